@@ -114,6 +114,15 @@ private def srcIdtEntry (cfg : Cfg) (cs : Nat) (e : SEntry) : List Nat → Optio
     | some .panic => (srcIdtEntry cfg cs e rest).map (fun t => ["p"] ++ sEntryWords e ++ t)
   | _ => none
 
+/-- C19: `external table index is_null` of a selector error code through the generated accessors
+(`panic` if any of them panics, as the harness prints). -/
+private def srcSecFields (cfg : Cfg) (f : BitVec 64) : List String :=
+  match Src.SelectorErrorCode_external cfg f, Src.SelectorErrorCode_descriptor_table cfg f,
+        Src.SelectorErrorCode_index cfg f, Src.SelectorErrorCode_is_null cfg f with
+  | .ok e, .ok t, .ok i, .ok z =>
+    [if e then "1" else "0", toString t.toNat, toString i.toNat, if z then "1" else "0"]
+  | _, _, _, _ => ["panic"]
+
 /-- C08: a history of setter calls `(kind, a, f)*` (0 set_addr, 1 set_frame, 2 set_flags, 3 set_unused) on the
 generated definitions; a panicking call prints `p` and leaves the entry as it was. -/
 private def srcEntrySeq (cfg : Cfg) (e : BitVec 64) : List Nat → Option (List String)
@@ -258,6 +267,24 @@ def srcOut (cfg : Cfg) (op : String) (a : Array Nat) : Option (List String) :=
   | "dr7_insert", [b, f] => some (sVal ((Src.Dr7Value_insert_flags cfg (b64 b) (b64 f)).map (·.2)))
   | "dr7_remove", [b, f] => some (sVal ((Src.Dr7Value_remove_flags cfg (b64 b) (b64 f)).map (·.2)))
   | "dr7_toggle", [b, f] => some (sVal ((Src.Dr7Value_toggle_flags cfg (b64 b) (b64 f)).map (·.2)))
+  | "darn_new", [n] => if n < 256 then some (sOpt (Src.DebugAddressRegisterNumber_new cfg (b8 n))) else none
+  | "bc_from_bits", [n] => some (sOpt (Src.BreakpointCondition_from_bits cfg (b64 n)))
+  | "bs_from_bits", [n] => some (sOpt (Src.BreakpointSize_from_bits cfg (b64 n)))
+  | "bs_new", [n] => some (sOpt (Src.BreakpointSize_new cfg (b64 n)))
+  | "dr6_trap", [n] => if n < 4 then some (sVal (Src.Dr6Flags_trap cfg (b8 n))) else none
+  | "dr7_lbe", [n] => if n < 4 then some (sVal (Src.Dr7Flags_local_breakpoint_enable cfg (b8 n))) else none
+  | "dr7_gbe", [n] => if n < 4 then some (sVal (Src.Dr7Flags_global_breakpoint_enable cfg (b8 n))) else none
+  | "dr7_cond", [b, n] => if n < 4 then some (sR (Src.Dr7Value_condition cfg (b64 b) (b8 n))) else none
+  | "dr7_size", [b, n] => if n < 4 then some (sR (Src.Dr7Value_size cfg (b64 b) (b8 n))) else none
+  | "dr7_set_cond", [b, n, c] =>
+    if n < 4 && c < 4 then some (sVal ((Src.Dr7Value_set_condition cfg (b64 b) (b8 n) (b8 c)).map (·.2))) else none
+  | "dr7_set_size", [b, n, c] =>
+    if n < 4 && c < 4 then some (sVal ((Src.Dr7Value_set_size cfg (b64 b) (b8 n) (b8 c)).map (·.2))) else none
+  | "sec_fields", [v] => some (srcSecFields cfg (b64 v))
+  | "sec_trunc", [v] =>
+    some (match Src.SelectorErrorCode_new_truncate cfg (b64 v) with
+      | .ok t => srcSecFields cfg t
+      | .panic => ["panic"])
   | _, _ => none
 
 end X86.Driver
